@@ -62,11 +62,14 @@ def build_program(types, support):
         for j, t in enumerate(types[i:i + per]):
             fn = "f%d" % (i + j)
             T = tx(t, local_names)
-            lines.append("  %s %s(1: %s a, 2: required %s b) throws (1: base.Oops err, 2: LocalErr err2)" % (T, fn, T, T))
+            # every fifth function renames a parameter and an exception for Go (go.name): the description follows the generated fields
+            ren = (i + j) % 5 == 2
+            lines.append("  %s %s(1: %s a%s, 2: required %s b) throws (1: base.Oops err, 2: LocalErr err2%s)"
+                         % (T, fn, T, ' (go.name = "Alpha")' if ren else "", T, ' (go.name = "SecondErr")' if ren else ""))
             funcs.append({"svc": name, "gosvc": name, "fn": fn, "gofn": "F%d" % (i + j), "pkg": "svc", "items": [
-                {"role": "arg", "name": "A", "t": t, "req": False}, {"role": "arg", "name": "B", "t": t, "req": True},
+                {"role": "arg", "name": "Alpha" if ren else "A", "t": t, "req": False}, {"role": "arg", "name": "B", "t": t, "req": True},
                 {"role": "exc", "name": "Err", "t": {"k": "ref", "n": "Oops"}, "req": False},
-                {"role": "exc", "name": "Err2", "t": {"k": "ref", "n": "LocalErr"}, "req": False},
+                {"role": "exc", "name": "SecondErr" if ren else "Err2", "t": {"k": "ref", "n": "LocalErr"}, "req": False},
                 {"role": "ret", "name": "", "t": t, "req": True}]})
             helpers.append("%s_F%d_Helper" % (name, i + j))
             structs.append("%s_F%d_Result" % (name, i + j))
